@@ -23,6 +23,21 @@ CLAIMED = {
             "DESIGN.md C13"),
 }
 
+CLAIMED["C09"] = (
+    "Rocq/Coq theorems over a model of the numeric readers/writer and std::istream; exhaustive short-string "
+    "correspondence with ReadInteger/ReadReal/ReadNumber/WriteReal; ISO 10303-21 grammar oracle",
+    "Coq theorems (coq/Properties_C09.v, axiom-free) over coq/P21Lex.v for ALL byte strings: an unconvertible numeric "
+    "token is never left unset silently (INTEGER/REAL/NUMBER), the following delimiter is never consumed by any of "
+    "the three readers, every conforming in-range INTEGER token reads to its value, assigned integers fit 64 bits, "
+    "WriteReal always yields a decimal point and only inserts '.E'. The model (incl. the libstdc++ istream/num_get "
+    "lexical behaviour) is validated on ALL strings up to length 4 (quick) / 6 (thorough) over each kind's alphabet in "
+    "5 delimiter contexts plus boundary tokens; an independent recogniser of the Part 21 grammar judges the "
+    "implementation's answers; writer checked on an exponent grid and read back.",
+    "Trusted: Coq kernel, extraction, harness/h_lex.cc, libstdc++/glibc number conversion (values compared via Python "
+    "float), tools/translate.py. STRING/BINARY/ENUM/LOGICAL/entity-reference tokens are not yet in the Coq model "
+    "(partial: numeric kinds + writer proved; the rest is covered by the C01/C03 correspondence).",
+    "DESIGN.md C09")
+
 NOT_APPLICABLE = {}
 
 ALL = ["C%02d" % i for i in range(1, 21)]
